@@ -283,7 +283,7 @@ static std::vector<Job> jobs_for(const hz::Args& a, std::vector<Harness>& fine, 
   }
   for (auto& h : coarse) jobs.push_back({&h, true, -1});
   // cold start (statics uninitialised, one fresh process per execution)
-  for (auto& h : fine) if (h.id == "H1" || h.id == "H4" || h.id == "H5" || h.id == "H5b" || h.id == "H5c") { const bool big = (h.id == "H4" || h.id == "H5b"); Job j{&h, false, a.thorough() ? (big ? 2 : 3) : (big ? 1 : 2)}; j.cold = true; jobs.push_back(j); }
+  for (auto& h : fine) if (h.id == "H1" || h.id == "H4" || h.id == "H5" || h.id == "H5b" || h.id == "H5c" || h.id == "H5e") { const bool big = (h.id == "H4" || h.id == "H5b"); Job j{&h, false, a.thorough() ? (big ? 2 : 3) : (big ? 1 : 2)}; j.cold = true; jobs.push_back(j); }
   return jobs;
 }
 
